@@ -86,10 +86,17 @@ def keying(ctx, f, b, cfg):
             if st["k"] == "assign" and st["rv"]["k"] in ("bin", "un", "cast") and not st.get("exp"):
                 ops += [(st["rv"].get(x), "%s" % (st["rv"].get("op") if isinstance(st["rv"].get("op"), str) else st["rv"]["k"])) for x in ("a", "b", "op") if isinstance(st["rv"].get(x), dict)]
         t = blk["term"]
+        merged = None
         if t and t["k"] == "call" and not t.get("exp"):
             ops += [(a, "argument of " + callee_def(t).rsplit("::", 2)[-1]) for a in t["args"]]
+            # a call that receives the override lookup next to the threshold is the selection itself (get(..).unwrap_or(threshold))
+            merged = set()
+            for a in t["args"]:
+                merged |= sl.of_operand(a)
         for op, what in ops:
             at = sl.of_operand(op)
+            if what.startswith("argument of") and merged is not None and any_atom(merged, "field:Rule.specific_items"):
+                at = merged
             if any_atom(at, "field:Rule.threshold"):
                 uses += 1
                 if not any_atom(at, "field:Rule.specific_items"):
